@@ -15,14 +15,19 @@ theorem regular_frame_other_dbs (special) (mode : Mode) (c : Nat) (sig : Sig) (r
     ∀ j, j ≠ (s.conn c).db →
       (runWith special mode c sig raw fromScript s).2.srv.dbs.getD j [] = s.srv.dbs.getD j [] := by
   intro j hj
-  rw [runWith_regular_run special mode c sig raw fromScript hreg, Sys.afterRegular_dbs]
-  exact getD_set_ne _ _ _ _ _ hj
+  cases hr : s.refuses c sig with
+  | true => rw [runWith_refused special mode c sig raw fromScript hr]
+  | false =>
+    rw [runWith_regular_run special mode c sig raw fromScript hreg s hr, Sys.afterRegular_dbs]
+    exact getD_set_ne _ _ _ _ _ hj
 
 /-- the number of databases does not change -/
 theorem regular_dbs_length (special) (mode : Mode) (c : Nat) (sig : Sig) (raw : List Bytes)
     (fromScript : Bool) (body : Body) (hreg : Cmd.regular sig.name = some body) (s : Sys) :
     (runWith special mode c sig raw fromScript s).2.srv.dbs.length = s.srv.dbs.length := by
-  rw [runWith_regular_run special mode c sig raw fromScript hreg, Sys.afterRegular_dbs, List.length_set]
+  cases hr : s.refuses c sig with
+  | true => rw [runWith_refused special mode c sig raw fromScript hr]
+  | false => rw [runWith_regular_run special mode c sig raw fromScript hreg s hr, Sys.afterRegular_dbs, List.length_set]
 
 /-- independence: replacing the other databases changes neither the reply nor the new selected database -/
 theorem regular_independent_of_other_dbs (special) (mode : Mode) (c : Nat) (sig : Sig) (raw : List Bytes)
@@ -42,14 +47,22 @@ theorem regular_independent_of_other_dbs (special) (mode : Mode) (c : Nat) (sig 
     rw [hconn]
     show runRegular _ _ _ _ _ ⟨dbs2.getD (s.conn c).db [], s.srv.time⟩ = _
     rw [hsame]
-  rw [runWith_regular_run special mode c sig raw fromScript hreg s2,
-    runWith_regular_run special mode c sig raw fromScript hreg s, ho, hconn]
-  refine ⟨rfl, ?_, ?_⟩
-  · rw [Sys.afterRegular_dbs, Sys.afterRegular_dbs, getD_set_self _ _ _ _ hd]
-    exact getD_set_self _ _ _ _ hd2
-  · intro j hj
-    rw [Sys.afterRegular_dbs]
-    exact getD_set_ne _ _ _ _ _ hj
+  have hr2 : s2.refuses c sig = s.refuses c sig := rfl
+  cases hr : s.refuses c sig with
+  | true =>
+    -- refused in subscriber mode: the same error reply, no database is touched
+    rw [runWith_refused special mode c sig raw fromScript (hr2.trans hr),
+      runWith_refused special mode c sig raw fromScript hr]
+    exact ⟨rfl, hsame, fun _ _ => rfl⟩
+  | false =>
+    rw [runWith_regular_run special mode c sig raw fromScript hreg s2 (hr2.trans hr),
+      runWith_regular_run special mode c sig raw fromScript hreg s hr, ho, hconn]
+    refine ⟨rfl, ?_, ?_⟩
+    · rw [Sys.afterRegular_dbs, Sys.afterRegular_dbs, getD_set_self _ _ _ _ hd]
+      exact getD_set_self _ _ _ _ hd2
+    · intro j hj
+      rw [Sys.afterRegular_dbs]
+      exact getD_set_ne _ _ _ _ _ hj
 
 example : ∃ (sig : Sig) (body : Body) (s : Sys), SigTable.find "get" = some sig ∧
     Cmd.regular sig.name = some body ∧ (s.conn 7).db < s.srv.dbs.length ∧ s.srv.dbs.length = 16 :=
